@@ -280,3 +280,206 @@ def reference_texts(cs, tree, render_fn=render, marker_fn=marker):
     out = []
     walk(tree, Scoping(), 0, True, out)
     return out
+
+
+# ---------------------------------------------------------------- @counter-style descriptors (css-counter-styles-3 §3)
+# Independent of weasyprint/css/validation/descriptors.py: the grammar of every descriptor written from the
+# specification on tinycss2 tokens.  `DECLINE` where the specification and WeasyPrint are known to read the value
+# differently for reasons that are not this property's business (ASCII case of keywords, url() symbols, tokens
+# the validators skip silently): the judges then say nothing.
+
+DECLINE = object()
+INVALID = None
+SYSTEM_KEYWORDS = ('cyclic', 'numeric', 'alphabetic', 'symbolic', 'additive')
+
+
+def _tokens(text):
+    import tinycss2
+    return [t for t in tinycss2.parse_component_value_list(text) if t.type not in ('whitespace', 'comment')]
+
+
+def _symbol(token):
+    if token.type in ('string', 'ident'):
+        return ('string', token.value)
+    return DECLINE if token.type in ('url', 'function') else INVALID
+
+
+def _integer(token):
+    return token.int_value if token.type == 'number' and token.is_integer else None
+
+
+def _split_commas(tokens):
+    parts, current = [], []
+    for token in tokens:
+        if token.type == 'literal' and token.value == ',':
+            parts.append(current)
+            current = []
+        else:
+            current.append(token)
+    parts.append(current)
+    return parts
+
+
+def _odd_case(tokens, keywords):
+    return any(t.type == 'ident' and t.value.lower() in keywords and t.value != t.value.lower() for t in tokens)
+
+
+def spec_descriptor(name, text):
+    """-> the value in the shape WeasyPrint stores it, INVALID (None), or DECLINE."""
+    tokens = _tokens(text)
+    if not tokens:
+        return DECLINE        # an empty value never reaches a validator (preprocess_descriptors rejects it)
+    if any(t.type in ('url', 'function', 'error') for t in tokens):
+        return DECLINE
+    if name == 'range':
+        if _odd_case(tokens, ('auto', 'infinite')):
+            return DECLINE
+        if len(tokens) == 1 and tokens[0].type == 'ident' and tokens[0].value == 'auto':
+            return 'auto'
+        out = []
+        for part in _split_commas(tokens):
+            if len(part) != 2:
+                return INVALID
+            bounds = []
+            for index, token in enumerate(part):
+                if token.type == 'ident' and token.value == 'infinite':
+                    bounds.append(math.inf if index else -math.inf)
+                elif _integer(token) is not None:
+                    bounds.append(_integer(token))
+                else:
+                    return INVALID
+            if bounds[0] > bounds[1]:          # "If the lower bound of any range is higher than the upper bound,
+                return INVALID                 #  the entire descriptor is invalid": equal bounds are one value
+            out.append(tuple(bounds))
+        return tuple(out)
+    if name == 'pad':
+        if len(tokens) != 2:
+            return INVALID
+        ints = [t for t in tokens if _integer(t) is not None]
+        syms = [t for t in tokens if t.type in ('string', 'ident')]
+        if len(ints) != 1 or len(syms) != 1 or _integer(ints[0]) < 0:
+            return INVALID
+        return (_integer(ints[0]), _symbol(syms[0]))
+    if name in ('prefix', 'suffix'):
+        return _symbol(tokens[0]) if len(tokens) == 1 else INVALID
+    if name == 'negative':
+        if len(tokens) > 2 or any(t.type not in ('string', 'ident') for t in tokens):
+            return DECLINE if len(tokens) <= 2 else INVALID
+        syms = [_symbol(t) for t in tokens]
+        return [syms[0], syms[1] if len(syms) == 2 else ('string', '')]
+    if name == 'symbols':
+        syms = [_symbol(t) for t in tokens]
+        return INVALID if any(s is INVALID for s in syms) else tuple(syms)
+    if name == 'additive-symbols':
+        out = []
+        for part in _split_commas(tokens):
+            if len(part) != 2:
+                return INVALID
+            ints = [t for t in part if _integer(t) is not None]
+            syms = [t for t in part if t.type in ('string', 'ident')]
+            if len(ints) != 1 or len(syms) != 1 or _integer(ints[0]) < 0:
+                return INVALID
+            if out and out[-1][0] <= _integer(ints[0]):
+                return INVALID
+            out.append((_integer(ints[0]), _symbol(syms[0])))
+        return tuple(out)
+    if name == 'fallback':
+        if len(tokens) != 1 or tokens[0].type != 'ident':
+            return INVALID
+        if tokens[0].value.lower() == 'none':
+            return INVALID if tokens[0].value == 'none' else DECLINE
+        return tokens[0].value
+    if name == 'system':
+        if _odd_case(tokens, SYSTEM_KEYWORDS + ('fixed', 'extends')):
+            return DECLINE
+        first = tokens[0].value if tokens[0].type == 'ident' else None
+        if first in SYSTEM_KEYWORDS:
+            return (None, first, None) if len(tokens) == 1 else INVALID
+        if first == 'fixed':
+            if len(tokens) == 1:
+                return (None, 'fixed', 1)
+            if len(tokens) == 2 and _integer(tokens[1]) is not None:
+                return (None, 'fixed', _integer(tokens[1]))
+            return INVALID
+        if first == 'extends':
+            if len(tokens) == 2 and tokens[1].type == 'ident':
+                # the name is case-sensitive in the specification, WeasyPrint lower-cases it
+                return DECLINE if tokens[1].value != tokens[1].value.lower() else ('extends', tokens[1].value, None)
+            return INVALID
+        return INVALID
+    return DECLINE
+
+
+def descriptor_clause(name, text, impl_value):
+    """The validator of `name` on `text` against the specification; `impl_value`: what WeasyPrint stores (None =
+    rejected).  -> what is wrong, or None."""
+    want = spec_descriptor(name, text)
+    if want is DECLINE or (isinstance(want, (tuple, list)) and any(x is DECLINE for x in _flatten(want))):
+        return None
+    canon = lambda v: None if v is None else _canon(v)  # noqa: E731
+    if canon(want) == canon(impl_value):
+        return None
+    if want is INVALID:
+        return f'`{name}: {text}` is accepted as {impl_value!r}; css-counter-styles-3 makes it invalid'
+    if impl_value is None:
+        return f'`{name}: {text}` is rejected; css-counter-styles-3 reads it as {want!r}'
+    return f'`{name}: {text}` is stored as {impl_value!r}; css-counter-styles-3 reads it as {want!r}'
+
+
+def _flatten(value):
+    if isinstance(value, (tuple, list)):
+        for item in value:
+            yield item
+            yield from _flatten(item)
+
+
+def _canon(value):
+    if isinstance(value, (tuple, list)):
+        return tuple(_canon(v) for v in value)
+    return value
+
+
+def spec_styles(css_text, base_cs):
+    """The counter-style table css-counter-styles-3 gives for a sheet of `@counter-style` rules (on top of
+    `base_cs`), or None when some rule is outside what `spec_descriptor` reads (then the judges use the table the
+    implementation built)."""
+    import tinycss2
+    table = {k: v for k, v in base_cs.items()}
+    fields = {'system': 'system', 'negative': 'negative', 'prefix': 'prefix', 'suffix': 'suffix', 'range': 'range',
+              'pad': 'pad', 'fallback': 'fallback', 'symbols': 'symbols', 'additive-symbols': 'additive_symbols'}
+    for rule in tinycss2.parse_stylesheet(css_text, skip_comments=True, skip_whitespace=True):
+        if rule.type != 'at-rule' or rule.lower_at_keyword != 'counter-style' or rule.content is None:
+            return None
+        prelude = [t for t in rule.prelude if t.type not in ('whitespace', 'comment')]
+        if len(prelude) != 1 or prelude[0].type != 'ident':
+            return None
+        name = prelude[0].value
+        if name.lower() in ('none', 'decimal', 'disc') and name.lower() in base_cs:
+            continue       # not overridable / invalid names: the rule is ignored
+        if name.lower() in ('none', 'decimal', 'disc') and name != name.lower():
+            return None
+        desc = dict.fromkeys(fields.values())
+        for decl in tinycss2.parse_blocks_contents(rule.content, skip_comments=True, skip_whitespace=True):
+            if decl.type != 'declaration':
+                return None
+            if decl.important:
+                continue
+            if decl.lower_name not in fields:
+                continue
+            value = spec_descriptor(decl.lower_name, tinycss2.serialize(decl.value))
+            if value is DECLINE or (isinstance(value, (tuple, list)) and any(x is DECLINE for x in _flatten(value))):
+                return None
+            if value is not INVALID:
+                desc[fields[decl.lower_name]] = value
+        system = desc['system'] or (None, 'symbolic', None)
+        if system[0] is None:
+            need = {'cyclic': 1, 'fixed': 1, 'symbolic': 1, 'alphabetic': 2, 'numeric': 2}.get(system[1])
+            if need is not None and len(desc['symbols'] or ()) < need:
+                continue
+            if system[1] == 'additive' and len(desc['additive_symbols'] or ()) < 2:
+                # the specification asks for one tuple, WeasyPrint for two
+                if len(desc['additive_symbols'] or ()) < 1:
+                    continue
+                return None
+        table[name] = desc
+    return table
